@@ -1,12 +1,13 @@
 //! Developer tool: brute-force enum names whose hashed error-code start (nonce 0) has a given value,
 //! e.g. exactly the minimum 7000 (accepted at nonce 0) or 6999 (rejected, so the nonce advances).
-//!   findname <target-value> [<how many>]
+//!   findname <target-value> [<how many>] [<upper bound>]   (with an upper bound: any value in target..=upper, printed with the value)
 use sha2::{Digest, Sha256};
 use std::sync::atomic::{AtomicU64, Ordering};
 fn main() {
     let args: Vec<String> = std::env::args().collect();
     let target: u32 = args[1].parse().unwrap();
     let want: u64 = args.get(2).map(|s| s.parse().unwrap()).unwrap_or(1);
+    let upper: u32 = args.get(3).map(|s| s.parse().unwrap()).unwrap_or(target);
     let found = std::sync::Arc::new(AtomicU64::new(0));
     let threads = 16u64;
     let hs: Vec<_> = (0..threads)
@@ -19,8 +20,8 @@ fn main() {
                     let mut h = Sha256::new_with_prefix(format!("spl_program_error:{name}").as_bytes());
                     h.update(0u32.to_le_bytes());
                     let d = u32::from_le_bytes(h.finalize()[13..17].try_into().unwrap());
-                    if d == target {
-                        println!("{name}");
+                    if d >= target && d <= upper {
+                        println!("{name} {d}");
                         found.fetch_add(1, Ordering::Relaxed);
                     }
                     k += threads;
